@@ -7,7 +7,7 @@
    the machine has.  The code reads with io.Copy(io.Discard, body) (fixed pooled buffer) or io.ReadAll(body)
    (buffer grown as data arrives) - the requests depend on what arrived, never on the announced number.
    Executable definitions only. *)
-From Coq Require Import List ZArith Bool.
+From Coq Require Import List ZArith Bool String.
 From PV Require Import Model.Robust.
 Import ListNotations.
 Local Open Scope Z_scope.
@@ -45,6 +45,9 @@ Definition go_make (mem n : Z) : alloc_res :=
 Inductive body_sink :=
 | SinkDiscard      (* io.Copy(io.Discard, body): one pooled buffer of fixed size *)
 | SinkReadAll.     (* io.ReadAll(body): starts with 512 bytes, grows (at most doubling) when full *)
+
+(* what harness/cmd/translate bodysinks finds in the source: one of the two modelled sinks, or something else *)
+Inductive sink_use := UseSink (k : body_sink) | UseOther (callee : string).
 
 Definition discard_buf : Z := 32768.
 
@@ -90,7 +93,16 @@ Definition with_body_ok (r : response) (b : bool) : response :=
 Inductive wire_shot := WShot (s : shot) | WCrash.       (* WCrash: the process died, nothing recovers that *)
 
 (* BaseGun.Shoot reaches the body read when the gun is bound, Connect did not fail, the ammo is valid, the
-   http2 check passed, no option branch panicked and Client.Do returned a response; it always discards *)
+   http2 check passed, no option branch panicked and Client.Do returned a response.  The body is drained into memory
+   first when httptrace.dump (httputil.DumpResponse), debug logging (verboseLogging: ioutil.ReadAll) or an applicable
+   answlog filter (answLogging: DumpResponse) is on; what is left is discarded *)
+Definition base_sink (c : base_cfg) (r : response) : body_sink :=
+  if go_dump (bc_opts c) || go_debug (bc_opts c) then SinkReadAll
+  else match go_answlog (bc_opts c) with
+       | Some f => if answ_applies f (rs_status r) then SinkReadAll else SinkDiscard
+       | None => SinkDiscard
+       end.
+
 Definition base_reaches_body (c : base_cfg) (invalid_ammo : bool) (r : response) : bool :=
   bc_bound c && negb (match bc_connect c with Some false => true | _ => false end) && negb invalid_ammo &&
   negb (bc_http2 c && negb (rs_h2 r) && conn_ok (rs_conn r)) &&
@@ -98,7 +110,7 @@ Definition base_reaches_body (c : base_cfg) (invalid_ammo : bool) (r : response)
 
 Definition base_shoot_wire (mem : Z) (c : base_cfg) (invalid_ammo : bool) (r : response) (w : body_wire) : wire_shot :=
   if base_reaches_body c invalid_ammo r then
-    match read_body mem SinkDiscard w with
+    match read_body mem (base_sink c r) w with
     | BodyRead ok => WShot (base_shoot c invalid_ammo (with_body_ok r ok))
     | BodyPanic => WShot (ShotPanic [{| sm_code := rs_status r; sm_err := false |}])
     | BodyFatal => WCrash
